@@ -47,6 +47,16 @@ R = [
   "first assignment pass vectorised, the matched index computed once per pass and re-used for the fits and the output"),
  ("C20f-savgol-blocked-buffer-stale-last-window", [(SM, "            last_coeffs = np.matmul(coeffs[-1], y[-window:])\n", "            last_coeffs = np.matmul(coeffs[n - 1], y[-window:])\n")],
   "non_uniform_savgol vectorised over sliding-window views, processed in blocks with re-used buffers; the right border uses the last window FILLED in the last block"),
+ ("C08f-memoised-site-map-aliases-geommap-y-offset", [(SG, "    return {k: chmap[:, v] for (k, v) in key_names.items()}\n", "    return {k: chmap[:, v].copy() for (k, v) in key_names.items()}\n")],
+  "site map parsed once per map string (memoised); callers get their own copies of the columns"),
+ ("C11f-single-stat-reused-on-open", [(SG, "            nc, fs = self.nc, self.fs\n", "            nc, fs = self.nc, self.fs\n            self.nbytes = self.file_bin.stat().st_size  # the size of the file that is about to be mapped\n")],
+  "Reader stats the binary once per construction and once per open(); the frame count comes from the size of the file being mapped"),
+ ("C12f-last-window-backfill-phase", [(NP, "        lead = min(int(self.samples_window) - (last - first), first)\n",
+                                       "        lead = min(int(self.samples_window) - (last - first), first)\n        lead = (lead // int(self.ratio)) * int(self.ratio)  # keep the window start on the decimation grid\n")],
+  "one read per window shared by the AP and LF streams, filter scratch array re-used; the last window is extended backwards by a whole number of LF samples"),
+ ("C14f-int8-sample-offset-pre-post-mask", [(WF, "    smp = np.arange(arr_peak.shape[1], dtype=np.int8)\n", "    smp = np.arange(arr_peak.shape[1])\n"),
+                                             (WF, "    smp_from_peak = smp[np.newaxis, :] - np.asarray(indx_peak).astype(np.int8)[:, np.newaxis]\n", "    smp_from_peak = smp[np.newaxis, :] - np.asarray(indx_peak)[:, np.newaxis]\n")],
+  "pre / post peak mask built from the sign of (sample - peak) in the platform integer type; maxima read at the arg-max; half-max broadcast"),
 ]
 
 if __name__ == "__main__":
